@@ -593,7 +593,7 @@ func checkC07InitKey(c *Ctx) {
 // ---- C07.reset-rewinds
 func checkC07ResetRewinds(c *Ctx) {
 	p, r := c.P, c.R
-	r.Rule("C07.reset-rewinds", "K4", "after every command that is not an undo/redo, Sources.Reset rewinds the undo position to the newest state — whether or not the command skipped its save (typing skips it): a new edit discards the redo branch", 1)
+	r.Rule("C07.reset-rewinds", "K4", "Sources.Reset — deferred by every save that is not skipped, and run at init and by Revert — rewinds the undo position to the newest state unless an undo or redo is under way: its store of 0 depends on nothing but the undoing / skip flags (a skipped save does not reach it: C07.save skipped-keeps-position)", 1)
 	RS := p.Func("(*history.Sources).Reset")
 	if RS == nil {
 		r.Unk("C07.reset-rewinds", "(*history.Sources).Reset", "-", "anchor not found")
@@ -614,7 +614,11 @@ func checkC07ResetRewinds(c *Ctx) {
 		extra := ""
 		for fc := range factsAt(bf, in) {
 			// allowed conditions: h.undoing, and nil tests of the line history
-			if _, fld, ok := fieldRead(fc.Cond); ok && fld == "undoing" {
+			if _, fld, ok := fieldRead(fc.Cond); ok && (fld == "undoing" || fld == "skip") {
+				continue
+			}
+			// a local copy of the skip flag (Save returns before Reset on a skipped save: the flag is false whenever it matters)
+			if dependsOn(fc.Cond, func(v ssa.Value) bool { _, fld, ok := fieldRead(v); return ok && (fld == "skip" || fld == "undoing") }) {
 				continue
 			}
 			if _, _, isNil := nilCmp(fc.Cond); isNil {
